@@ -125,7 +125,9 @@ func (br *BrokerBatchRows) TryAppend(appendFunc func(row *BrokerRow) error) erro
 	if err := appendFunc(&br.rows[br.rowCount]); err != nil {
 		return err
 	}
-	// decoded successfully, move to next row index
+	// decoded successfully, the slot of a pooled batch may still carry the mark of an evicted row
+	br.rows[br.rowCount].IsOutOfTimeRange = false
+	// move to next row index
 	br.rowCount++
 	return nil
 }
